@@ -230,7 +230,11 @@ func (s *Sorts) zero(t types.Type) string {
 	}
 	if strings.HasPrefix(so, "(Array Int ") {
 		el := t.Underlying().(*types.Array).Elem()
-		return "((as const " + so + ") " + s.zero(el) + ")"
+		z := s.zero(el)
+		if z == "0" || z == "false" || z == "\"\"" {
+			return "((as const " + so + ") " + z + ")"
+		}
+		return "zeroarr_" + mangle(so)
 	}
 	return "opqzero"
 }
